@@ -81,6 +81,10 @@ def run(pid, tier, seed):
   modes = [dict(c, sig="smooth", hist=h) for c in cfgs if c["cls"] in ("tanh", "sigmoid") and c["bits"] <= (4 if tier == "quick" else 6)
            for h in ("mode_before", "mode_after")]
   cfgs += modes
+  # real sigmoid: as the library-wide mode (set before / after construction) and through use_real_sigmoid/use_real_tanh
+  cfgs += [dict(c, sig=sg, **({"hist": h} if h else {})) for c in cfgs
+           if c["cls"] in ("tanh", "sigmoid") and "sig" not in c and c["bits"] <= (4 if tier == "quick" else 6)
+           for sg, h in (("real", "mode_before"), ("real", "mode_after"), ("realflag", None))]
   root = scratch_root()
   cpath = os.path.join(root, "fixed_cfgs.json")
   json.dump(cfgs, open(cpath, "w"))
